@@ -61,8 +61,8 @@ def check_directives(run, probe=None, thorough=False):
     """returns (number of calls, list of mismatching calls); (0, []) when the probe cannot be built"""
     if probe is None:
         probe = lib.build_verifprobe(run)
-    docs = gen_docs(run.rng, 12000 if thorough else 1800)
-    tags = gen_tags(run.rng, 6000 if thorough else 900)
+    docs = gen_docs(run.rng, 12000 if thorough else 700)
+    tags = gen_tags(run.rng, 6000 if thorough else 400)
     calls = []
     for d in docs:
         calls += [("parseNewComment", [d]), ("parseGetSetComment", [d]), ("parseGetterSetterDoc", [d]),
@@ -89,13 +89,13 @@ def check_directives(run, probe=None, thorough=False):
             terms.append("DJson %s %s" % (a, sc(r[0])))
         else:
             terms.append("DNewTag %s %s" % (a, sc(r[0])))
-    shard = 2500
+    shard = 1200
     mism = []
 
     def one(k):
         part = terms[k * shard:(k + 1) * shard]
         body = ("From Coq Require Import String List NArith.\nFrom Shoot Require Import Corr.CtorDirectiveCorr.\n"
-                "Import ListNotations.\nSet Printing Width 1000000.\nSet Printing Depth 1000000.\n"
+                "Import ListNotations.\nLocal Open Scope N_scope.\nSet Printing Width 1000000.\nSet Printing Depth 1000000.\n"
                 "Definition cases : list dcase := [\n%s\n].\nDefinition M := Eval vm_compute in dmismatches cases.\nPrint M.\n"
                 % ";\n".join(part))
         out = run.coq_eval("ctordir_l1_%d" % k, body)
